@@ -122,7 +122,10 @@ pub fn profile_for(prop: Prop, thorough: bool) -> Profile {
             p.w_resize = 5;
             p.w_clone = 4;
             p.w_remove = 7;
-            p.hashers = ALL_HASHERS.to_vec();
+            // deterministic hashers (crash reproducibility, see C18); RandomState is covered
+            // by C02 / C16 / C17 whose oracles work in-process
+            p.kinds.retain(|(_, k)| *k != Kind::LruCbD);
+            p.key_hashers = vec![KhSpec::Ident, KhSpec::Const, KhSpec::Fnv(3)];
         }
         Prop::C04 => {
             p.w_remove = 8;
@@ -596,8 +599,11 @@ pub fn check_c18(ctx: &Ctx, out: &mut Outcome, q: u32, t: u32) {
     let th = ctx.tier == Tier::Thorough;
     let mut profile = Profile::base(th);
     profile.max_ops = if th { 30 } else { 12 };
-    profile.hashers = vec![HSpec::Fnv(1), HSpec::Fnv(2), HSpec::Ident, HSpec::Zero, HSpec::Random];
-    profile.kinds = vec![(2, Kind::Lru), (3, Kind::LruCb), (1, Kind::LruCbD), (3, Kind::Seg), (4, Kind::TwoQ), (4, Kind::Arc), (4, Kind::Wtl)];
+    // deterministic hashers only: a history that kills the process must do so again when the
+    // journaled case is replayed (RandomState would make the crash point wander)
+    profile.hashers = vec![HSpec::Fnv(1), HSpec::Fnv(2), HSpec::Ident, HSpec::Zero, HSpec::Fnv(77)];
+    profile.key_hashers = vec![KhSpec::Ident, KhSpec::Const, KhSpec::Fnv(3)];
+    profile.kinds = vec![(2, Kind::Lru), (4, Kind::LruCb), (3, Kind::Seg), (4, Kind::TwoQ), (4, Kind::Arc), (4, Kind::Wtl)];
     profile.w_clone = 3;
     profile.w_purge = 2;
     profile.w_resize = 3;
@@ -609,6 +615,33 @@ pub fn check_c18(ctx: &Ctx, out: &mut Outcome, q: u32, t: u32) {
     let (acc, found) = run_engine(&strat, &exec_e4, &|c: &Case| c.clone(), &ctx.id, ctx.seed, 0xe4, ctx.workers, ctx.cases(q, t), &ctx.known);
     let rule = "generated histories (<= 12 ops quick / <= 30 thorough, incl. clone, purge, resize, callback-carrying RawLRU) over all cache kinds; for each history EVERY call into user code (Hash, Eq, Clone, Drop of keys and values, BuildHasher::build_hasher, Hasher::finish, KeyHasher, eviction callback) is enumerated as a crash point: the history is re-run once per index with a panic injected there, the remaining ops run, the cache is inspected and dropped; non-trivial history = at least one injected panic fired inside a mutating library call; distinct by case hash";
     finish(ctx, rule, acc, found, out, "e4", &exec_e4, &|c, f| minimize(c, f));
+    // second pass: long put-heavy "churn" histories on small caches. Only after many
+    // insert/remove cycles does the hash index rehash *in place*, calling user code for every
+    // entry; the short histories above never get there (this is how D17 was missed by the
+    // quick tier and found by the thorough one)
+    let mut churn = Profile::base(th);
+    churn.min_ops = 24;
+    churn.max_ops = if th { 60 } else { 44 };
+    churn.hashers = vec![HSpec::Fnv(1), HSpec::Ident, HSpec::Zero, HSpec::Fnv(77)];
+    churn.key_hashers = vec![KhSpec::Ident, KhSpec::Const];
+    churn.kinds = vec![(3, Kind::Lru), (2, Kind::LruCb), (3, Kind::Seg), (3, Kind::TwoQ), (3, Kind::Arc), (2, Kind::Wtl)];
+    churn.w_put = 70;
+    churn.w_get = 6;
+    churn.w_get_mut = 2;
+    churn.w_peek = 1;
+    churn.w_remove = 8;
+    churn.w_purge = 2;
+    churn.w_query = 0;
+    churn.w_lru_extra = 3;
+    churn.w_resize = 2;
+    churn.w_or_put = 3;
+    churn.w_seg_extra = 6;
+    churn.w_iter = 0;
+    churn.w_clone = 1;
+    let strat2 = move || case_strategy(&churn);
+    journal_for(ctx, "e4");
+    let (acc2, found2) = run_engine(&strat2, &exec_e4, &|c: &Case| c.clone(), &ctx.id, ctx.seed, 0xe44, ctx.workers, ctx.cases(q / 10, t / 10), &ctx.known);
+    finish(ctx, rule, acc2, found2, out, "e4churn", &exec_e4, &|c, f| minimize(c, f));
     out.level = "fault_enumeration";
     if let Some(st) = crate::e4::E4_ACC.lock().unwrap().take() {
         out.coverage.insert("crash_points_enumerated".into(), json!(st.armed_runs));
